@@ -21,7 +21,11 @@ METHS = ["apply", "map", "starmap", "doublestarmap"]
 POOL_NAME = "po%ol {0} 100%s (x) [y]"
 
 
-class HarnessError(Exception):
+class HarnessError(TypeError, ValueError, LookupError, ArithmeticError, AssertionError):
+    """What harness-owned user code raises.  It is an instance of several builtin exception types
+    at once, so library code that treats one of them specially (`except TypeError: retry` ...)
+    meets it."""
+
     def __init__(self, tid, site):
         super().__init__(f"user/{tid}/{site}")
         self.tid, self.site = tid, site
